@@ -143,6 +143,14 @@ class FuncModel:
                 return self.deref(vd[0][1], vd[0][0], depth + 1)
         return e
 
+    def deref_at(self, e: ast.AST | None, at: N | None, depth: int = 0):
+        """Like deref, but also returns the program point at which the resulting expression is evaluated."""
+        if isinstance(e, ast.Name) and at is not None and depth < 6:
+            vd = self.value_defs(e.id, at)
+            if len(vd) == 1 and vd[0][1] is not None and not self.stale(vd[0][0], at, vd[0][1]):
+                return self.deref_at(vd[0][1], vd[0][0], depth + 1)
+        return e, at
+
     # ----------------------------------------------------------------- purity / transparency
     def _callee_name(self, c: ast.Call) -> str:
         if isinstance(c.func, ast.Name):
